@@ -1,4 +1,5 @@
 import Bxh.Model.Exec
+import Bxh.Model.Router
 import Driver.Util
 namespace Driver.ExecEngine
 open Bxh Bxh.Exec
@@ -154,7 +155,12 @@ def showBlock (o : BlockOut) (outside : List Bool := []) : String :=
     p.1 ++ ":[" ++ joinC (p.2.map fun v => s!"{v.index}/{b2s v.valid}/{b2s v.isBatch}") ++ "]")
   let ts := ";".intercalate ((sortKV o.timeoutCounter).map fun p => p.1 ++ ":[" ++ joinC (sortStrings (p.2.map TId.str)) ++ "]")
   let ms := ";".intercalate ((sortKV o.multiCounter).map fun p => p.1 ++ ":[" ++ joinC (sortStrings (p.2.map TxId.str)) ++ "]")
-  s!"h={o.height} rc=[{rc}] counter=\{{cs}} timeout=\{{ts}} multi=\{{ms}}"
+  -- what the interchain router hands to the piers (model `Bxh.Router.classify`)
+  let rt := ";".intercalate ((sortKV (Bxh.Router.classify o)).filterMap fun p =>
+    if p.2.txs.isEmpty && p.2.timeouts.isEmpty && p.2.multi.isEmpty then none else
+    some (p.1 ++ ":[" ++ joinC (p.2.txs.map fun v => s!"{v.index}/{b2s v.valid}/{b2s v.isBatch}") ++ "]|[" ++
+      joinC (sortStrings (p.2.timeouts.map TId.str)) ++ "]|[" ++ joinC (sortStrings (p.2.multi.map TxId.str)) ++ "]"))
+  s!"h={o.height} rc=[{rc}] counter=\{{cs}} timeout=\{{ts}} multi=\{{ms}} route=\{{rt}}"
 
 def showCounter (m : KV SvcId Nat) : String :=
   "{" ++ joinC (sortStrings (m.map fun p => s!"{SvcId.str p.1}={p.2}")) ++ "}"
@@ -188,7 +194,9 @@ def doBlock (s : St) (rest : List String) : St × String :=
       | .single t => (match l2.getS (.txRec t) with | some (.trec r) => r.status.isFinal | _ => false)
       | .global _ => false
     ({ s with node := n', hist := s.hist ++ [(n'.height, n')], minJ := if n'.height > 10 then max s.minJ (n'.height - 10) else s.minJ },
-      showBlock out outside ++ " ##m listedfinal=" ++ (if listedFinal then "1" else "0"))
+      showBlock out outside ++ " ##m listedfinal=" ++ (if listedFinal then "1" else "0") ++
+        -- the hypothesis of the router theorems (`C02_router_hands_each_pier_its_delivery_set` …): one entry per chain
+        " keyedmulti=" ++ (if decide ((out.multiCounter.map (·.1)).Nodup) then "1" else "0"))
   else (s, "bad-op unparsed")
 
 def step (s : St) (ws : List String) : St × String :=
